@@ -68,6 +68,10 @@ pub struct Scenario {
     pub slots: usize,
     /// preemption bound for this scenario
     pub bound: u32,
+    /// suspend the run at every cancel poll (only possible with a one-thread pool)
+    pub fine: bool,
+    /// suspend at the points around the notification flag (only the wake-up property needs them)
+    pub flag_points: bool,
 }
 
 impl Scenario {
@@ -222,7 +226,7 @@ fn do_push(exec: &Exec, shared: &Shared, thread: usize, inj: &Injector<ItemData>
 /// Runs one execution of `scn` under the schedule `prefix`.
 pub fn run_scenario(scn: &Scenario, prefix: &[usize]) -> RunResult {
     let config = Config::DEFAULT;
-    let exec = Exec::new(prefix.to_vec(), scn.pool_threads, scn.slots);
+    let exec = Exec::new(prefix.to_vec(), scn.pool_threads, scn.slots, scn.fine, scn.flag_points);
     let shared = Arc::new(Shared {
         obs: Mutex::new(Vec::new()),
         slots: Mutex::new((0..scn.slots).map(|_| None).collect()),
